@@ -1,6 +1,394 @@
 package cons
 
-import "verif/core"
+import (
+	"fmt"
+	"strings"
 
-// ExploreEpochs is filled in by the multi-epoch explorer (see epochs_impl.go).
-var ExploreEpochs = func(c *core.Ctx, rep Report) {}
+	"github.com/Fantom-foundation/lachesis-base/hash"
+	"github.com/Fantom-foundation/lachesis-base/inter/idx"
+	"github.com/Fantom-foundation/lachesis-base/inter/pos"
+	"verif/core"
+	lref "verif/ref/lachesis"
+)
+
+// NextVals derives the next epoch's validator set from the current one.
+func NextVals(w WeightVec, kind string) WeightVec {
+	n := len(w.W)
+	switch kind {
+	case "reweighted": // reversed weights: different canonical order
+		nw := make([]uint32, n)
+		for i := range nw {
+			nw[i] = w.W[n-1-i]
+		}
+		if n > 1 && nw[0] == w.W[0] { // symmetric vector: bump one weight instead
+			nw[n-1]++
+		}
+		return WeightVec{nw, append([]uint32{}, w.IDs...)}
+	case "removed":
+		if n > 1 {
+			return WeightVec{append([]uint32{}, w.W[:n-1]...), append([]uint32{}, w.IDs[:n-1]...)}
+		}
+	case "added":
+		return WeightVec{append(append([]uint32{}, w.W...), 1), append(append([]uint32{}, w.IDs...), 5)}
+	}
+	return WeightVec{append([]uint32{}, w.W...), append([]uint32{}, w.IDs...)}
+}
+
+func valsOf(w WeightVec) *pos.Validators {
+	b := pos.NewBuilder()
+	for i, x := range w.W {
+		b.Set(idx.ValidatorID(w.IDs[i]), pos.Weight(x))
+	}
+	return b.Build()
+}
+
+// epochBlocks renders the blocks of one epoch.
+func epochBlocks(n *Node, epoch idx.Epoch, name Namer) string {
+	keep := n.Blocks
+	var sel []BlockObs
+	for _, b := range keep {
+		if b.Epoch == epoch {
+			sel = append(sel, b)
+		}
+	}
+	n.Blocks = sel
+	s := n.BlocksString(name)
+	n.Blocks = keep
+	return s
+}
+
+// CheckEpochs explores epoch 1 (DAG d1, sealed at the block of frame sealFrame with validator set
+// kind) over all orders, then epoch 2 (DAG built by mkD2 over the new set) over all orders from
+// several starting points: the shortest and the longest sealing path, an instance Reset() to the new
+// epoch from genesis and one Reset() from a mid-epoch state.
+func CheckEpochs(c *core.Ctx, d1 *lref.DAG, desc string, sealFrame int, kind string, d2rounds int, rep Report, cfg Config) {
+	w1 := WeightVec{d1.Weights, d1.IDs}
+	w2 := NextVals(w1, kind)
+	if kind == "removed" && len(w1.W) == 1 {
+		return
+	}
+	v1 := valsOf(w1)
+	v2 := valsOf(w2)
+	evs1, byID1 := Events(d1)
+	d2 := BuildRounds(RoundCfg{W: w2, Epoch: d1.Epoch + 1, R: d2rounds}, nil, -1, 0)
+	evs2, byID2 := Events(d2)
+	name := func(id hash.Event) string {
+		if i, ok := byID1[id]; ok {
+			return fmt.Sprintf("e%d", i)
+		}
+		if i, ok := byID2[id]; ok {
+			return fmt.Sprintf("n%d", i)
+		}
+		return "?" + id.String()
+	}
+	violate := func(cat, sig string, replay interface{}, format string, a ...interface{}) {
+		if rep[cat] {
+			c.Violation(sig, replay, format, a...)
+		} else {
+			c.Count("other_category_mismatches", 1)
+		}
+	}
+	mkCfg := func() Config {
+		k := cfg
+		k.Seal = func(epoch idx.Epoch, frame idx.Frame) *pos.Validators {
+			if epoch == idx.Epoch(d1.Epoch) && int(frame) == sealFrame {
+				if kind == "same-object" {
+					return nil // replaced below (needs the node)
+				}
+				return v2
+			}
+			return nil
+		}
+		return k
+	}
+	newNode := func() *Node {
+		k := mkCfg()
+		n := NewNode(k, idx.Epoch(d1.Epoch), v1)
+		if kind == "same-object" {
+			n.Cfg.Seal = func(epoch idx.Epoch, frame idx.Frame) *pos.Validators {
+				if epoch == idx.Epoch(d1.Epoch) && int(frame) == sealFrame {
+					return n.Store.GetValidators()
+				}
+				return nil
+			}
+		}
+		return n
+	}
+	maxFrame1 := 0
+	for _, e := range d1.Events {
+		if e.Frame > maxFrame1 {
+			maxFrame1 = e.Frame
+		}
+	}
+	byz := d1.ForkersWeight(d1.Full())*3 >= d1.Total()
+	if byz {
+		return
+	}
+	var sealObs string
+	var sealPathShort, sealPathLong, midPath []int
+	sealedSomewhere := false
+	table := map[uint64]string{}
+	ideals, edges, _ := Lattice(d1, 20000, c.OutOfBudget, func(path []int, e int, nm uint64) bool {
+		node := newNode()
+		seq := append(append([]int{}, path...), e)
+		replay := func() interface{} {
+			return map[string]interface{}{"epoch1_dag": d1.String(), "family": desc, "seal_frame": sealFrame, "next_validators": kind, "order": seq}
+		}
+		for k, x := range seq {
+			err, crit := node.Process(evs1[x])
+			if err != nil || crit != "" {
+				violate("accept", "accept/rejected-valid-event", replay(), "Process(e%d) = %v %s after %v (epoch sealing at frame %d, next validators %s) [%v]", x, err, crit, seq[:k], sealFrame, kind, replay())
+				return false
+			}
+		}
+		es := node.Store.GetEpochState()
+		refBlocks, _ := d1.Blocks(nm, sealFrame)
+		refSealed := len(refBlocks) >= sealFrame
+		if int(es.Epoch) == int(d1.Epoch) {
+			// not sealed: same monitors as the single-epoch exploration
+			if refSealed {
+				violate("epoch", "epoch/seal-missed", replay(), "the reference decides frame %d inside this event set but the instance did not seal [%v]", sealFrame, replay())
+				return false
+			}
+			if cat, msg := CheckBlocks(d1, node, byID1); cat != "" {
+				violate(strings.SplitN(cat, "/", 2)[0], cat, replay(), "%s [%v]", msg, replay())
+				return false
+			}
+			var ids []hash.Event
+			for _, x := range maskList(nm) {
+				ids = append(ids, evs1[x].ID())
+			}
+			obs := node.Observe(name, ids, maxFrame1+1)
+			if prev, ok := table[nm]; ok && prev != obs {
+				violate("order", "order/state-depends-on-order", replay(), "event set %v reached in two orders observes different states:\n A: %s\n B: %s", maskList(nm), prev, obs)
+				return false
+			}
+			table[nm] = obs
+			if len(seq) >= 2 && len(seq) > len(midPath) && len(midPath) < 4 {
+				midPath = seq
+			}
+			return true
+		}
+		// sealed by this event
+		sealedSomewhere = true
+		c.Count("seal_transitions", 1)
+		msg := ""
+		if int(es.Epoch) != int(d1.Epoch)+1 {
+			msg = fmt.Sprintf("epoch after sealing is %d", es.Epoch)
+		} else if es.Validators.String() != v2.String() {
+			msg = fmt.Sprintf("validators after sealing are %s, EndBlock returned %s", es.Validators.String(), v2.String())
+		} else if node.Store.GetLastDecidedFrame() != 0 {
+			msg = fmt.Sprintf("last decided frame after sealing is %d", node.Store.GetLastDecidedFrame())
+		} else if len(node.Blocks) != sealFrame {
+			msg = fmt.Sprintf("%d blocks emitted, the seal was requested at the block of frame %d", len(node.Blocks), sealFrame)
+		}
+		for f := 1; msg == "" && f <= maxFrame1+1; f++ {
+			if rr := node.Store.GetFrameRoots(idx.Frame(f)); len(rr) != 0 {
+				msg = fmt.Sprintf("new epoch starts with %d roots in frame %d", len(rr), f)
+			}
+		}
+		if msg != "" {
+			violate("epoch", "epoch/unclean-switch", replay(), "%s [%v]", msg, replay())
+			return false
+		}
+		// blocks of the sealed epoch against the graph monitors (the node's blocks are all epoch 1)
+		if cat, m := CheckBlocks(d1, node, byID1); cat != "" {
+			violate(strings.SplitN(cat, "/", 2)[0], cat, replay(), "%s [%v]", m, replay())
+			return false
+		}
+		obs := node.BlocksString(name)
+		if sealObs == "" {
+			sealObs = obs
+			sealPathShort = seq
+		} else if obs != sealObs {
+			violate("order", "order/sealing-blocks-differ", replay(), "two orders seal the epoch with different block sequences:\n A: %s\n B: %s [%v]", sealObs, obs, replay())
+			return false
+		}
+		if len(seq) >= len(sealPathLong) {
+			sealPathLong = seq
+		}
+		if !byz && len(refBlocks) == sealFrame {
+			for i, b := range refBlocks {
+				if at, ok := byID1[node.Blocks[i].Atropos]; !ok || at != b.Atropos {
+					violate("ref", "ref/blocks-differ", replay(), "sealed epoch blocks %s differ from the reference (frame %d atropos e%d) [%v]", obs, b.Frame, b.Atropos, replay())
+					return false
+				}
+			}
+		}
+		return false // nothing of the old epoch is fed after the seal
+	})
+	c.Count("states", int64(ideals))
+	c.Count("transitions", int64(edges))
+	c.Count("traces_validated_against_impl", int64(edges))
+	c.Count("epoch_scenarios", 1)
+	if !sealedSomewhere {
+		return
+	}
+	c.Count("epoch_scenarios_sealed", 1)
+
+	// ---- epoch 2 from several starting points
+	type start struct {
+		name string
+		mk   func() (*Node, string)
+	}
+	runPath := func(p []int) (*Node, string) {
+		n := newNode()
+		for _, x := range p {
+			if err, crit := n.Process(evs1[x]); err != nil || crit != "" {
+				return nil, fmt.Sprintf("replay failed at e%d: %v %s", x, err, crit)
+			}
+		}
+		return n, ""
+	}
+	starts := []start{
+		{"sealed(shortest path)", func() (*Node, string) { return runPath(sealPathShort) }},
+		{"sealed(longest path)", func() (*Node, string) { return runPath(sealPathLong) }},
+		{"reset-from-genesis", func() (*Node, string) {
+			n := newNode()
+			if err, crit := n.Reset(idx.Epoch(d1.Epoch)+1, v2); err != nil || crit != "" {
+				return nil, fmt.Sprintf("Reset failed: %v %s", err, crit)
+			}
+			return n, ""
+		}},
+		{"reset-from-mid-epoch", func() (*Node, string) {
+			n, msg := runPath(midPath)
+			if msg != "" {
+				return nil, msg
+			}
+			if err, crit := n.Reset(idx.Epoch(d1.Epoch)+1, v2); err != nil || crit != "" {
+				return nil, fmt.Sprintf("Reset failed: %v %s", err, crit)
+			}
+			return n, ""
+		}},
+	}
+	maxFrame2 := 0
+	for _, e := range d2.Events {
+		if e.Frame > maxFrame2 {
+			maxFrame2 = e.Frame
+		}
+	}
+	table2 := map[uint64]string{}
+	from2 := map[uint64]string{}
+	for _, st := range starts {
+		st := st
+		_, edges2, _ := Lattice(d2, 20000, c.OutOfBudget, func(path []int, e int, nm uint64) bool {
+			seq := append(append([]int{}, path...), e)
+			replay := func() interface{} {
+				return map[string]interface{}{"epoch1_dag": d1.String(), "family": desc, "seal_frame": sealFrame, "next_validators": kind,
+					"start": st.name, "seal_path_short": sealPathShort, "seal_path_long": sealPathLong, "mid_path": midPath, "epoch2_dag": d2.String(), "epoch2_order": seq}
+			}
+			node, msg := st.mk()
+			if msg != "" {
+				violate("epoch", "epoch/start-failed", replay(), "%s: %s [%v]", st.name, msg, replay())
+				return false
+			}
+			nb := len(node.Blocks)
+			for k, x := range seq {
+				err, crit := node.Process(evs2[x])
+				if err != nil || crit != "" {
+					violate("accept", "accept/rejected-valid-event-new-epoch", replay(), "[%s] Process(n%d) = %v %s after %v in the new epoch [%v]", st.name, x, err, crit, seq[:k], replay())
+					return false
+				}
+			}
+			for _, b := range node.Blocks[nb:] {
+				if b.Epoch != idx.Epoch(d2.Epoch) {
+					violate("epoch", "epoch/old-epoch-block-after-seal", replay(), "[%s] a block of epoch %d was emitted after the switch [%v]", st.name, b.Epoch, replay())
+					return false
+				}
+			}
+			// monitors on the new epoch's blocks
+			keep := node.Blocks
+			node.Blocks = append([]BlockObs{}, keep[nb:]...)
+			cat, m := CheckBlocks(d2, node, byID2)
+			var ids []hash.Event
+			for _, x := range maskList(nm) {
+				ids = append(ids, evs2[x].ID())
+			}
+			obs := node.Observe(name, ids, maxFrame2+1)
+			refB, incons := d2.Blocks(nm, 0)
+			okRef := incons != "" || len(refB) == len(node.Blocks)
+			for i := 0; okRef && incons == "" && i < len(refB); i++ {
+				at, known := byID2[node.Blocks[i].Atropos]
+				okRef = known && at == refB[i].Atropos
+			}
+			node.Blocks = keep
+			if cat != "" {
+				violate(strings.SplitN(cat, "/", 2)[0], cat, replay(), "[%s] new epoch: %s [%v]", st.name, m, replay())
+				return false
+			}
+			if !okRef {
+				violate("ref", "ref/blocks-differ-new-epoch", replay(), "[%s] new epoch blocks differ from the reference: %s [%v]", st.name, obs, replay())
+				return false
+			}
+			if prev, ok := table2[nm]; ok && prev != obs {
+				violate("epoch", "epoch/new-epoch-depends-on-history", replay(), "new-epoch event set %v: [%s] observes\n  %s\nbut [%s] observed\n  %s [%v]", maskList(nm), st.name, obs, from2[nm], prev, replay())
+				return false
+			} else if !ok {
+				table2[nm] = obs
+				from2[nm] = st.name
+			}
+			return true
+		})
+		c.Count("transitions", int64(edges2))
+		c.Count("traces_validated_against_impl", int64(edges2))
+	}
+}
+
+// ExploreEpochs runs the multi-epoch exploration (sealing at every decided frame, every kind of
+// next validator set, new epoch explored from sealed and Reset() instances).
+func ExploreEpochs(c *core.Ctx, rep Report) {
+	quick := c.Quick()
+	cfgs := nodeConfigs()
+	kinds := []string{"same-object", "same-set", "reweighted", "removed", "added"}
+	item := 0
+	var fams []GenCfg
+	add := func(w WeightVec, n, forks int) {
+		fams = append(fams, GenCfg{Weights: w.W, IDs: w.IDs, Epoch: 1, N: n, ForkBudget: forks, MaxLevelSet: 100000})
+	}
+	if quick {
+		add(WV(3, 1), 5, 0)
+		add(WV(5, 1, 1), 4, 0)
+	} else {
+		add(WV(3, 1), 7, 0)
+		add(WV(3, 1), 6, 1)
+		add(WV(5, 1, 1), 5, 1)
+	}
+	for _, g := range fams {
+		GenAll(g, 3, func(d *lref.DAG) {
+			full, _ := d.Blocks(d.Full(), 0)
+			for s := 1; s <= len(full); s++ {
+				for _, kind := range kinds {
+					item++
+					if !c.Mine(item) || c.OutOfBudget() {
+						continue
+					}
+					CheckEpochs(c, d, fmt.Sprintf("epochs: F-all weights=%v N=%d", g.Weights, g.N), s, kind, 4, rep, cfgs[item%len(cfgs)])
+				}
+			}
+		})
+	}
+	// lagging validators (multi-frame roots) in the sealed epoch
+	rounds := []RoundCfg{{W: WV(1, 1, 1, 1), Epoch: 1, R: 8, Dev: 1, Lags: true, MaxLag: 5}}
+	if !quick {
+		rounds = append(rounds, RoundCfg{W: WV(2, 1, 1, 1), Epoch: 1, R: 8, Dev: 1, Lags: true, MaxLag: 5},
+			RoundCfg{W: WV(1, 1, 1, 1), Epoch: 1, R: 8, Dev: 2, Lags: true, MaxLag: 4, DevRounds: 3})
+	}
+	for _, r := range rounds {
+		r := r
+		GenRounds(r, nil, func(d *lref.DAG, desc string) {
+			full, _ := d.Blocks(d.Full(), 0)
+			for s := 1; s <= len(full); s++ {
+				for _, kind := range []string{"same-object", "reweighted"} {
+					item++
+					if !c.Mine(item) || c.OutOfBudget() {
+						continue
+					}
+					CheckEpochs(c, d, "epochs: F-round "+desc, s, kind, 3, rep, cfgs[item%len(cfgs)])
+				}
+			}
+		})
+	}
+	if c.Capped() {
+		c.Set("exhaustive", false)
+	}
+}
